@@ -74,10 +74,15 @@ class Lsp:
 
     def request(self, rid, method, params, timeout=5.0):
         self.send({"jsonrpc": "2.0", "id": rid, "method": method, "params": params})
-        got = self.read(timeout, until=lambda m: m.get("id") == rid and "method" not in m)
-        for m in got:
-            if m.get("id") == rid and "method" not in m:
-                return m
+        # a server that is still alive gets five more allowances before the request counts as unanswered:
+        # on a loaded machine a slow answer must not be taken for a missing one
+        for allowance in (timeout, timeout * 5):
+            got = self.read(allowance, until=lambda m: m.get("id") == rid and "method" not in m)
+            for m in got:
+                if m.get("id") == rid and "method" not in m:
+                    return m
+            if not self.alive():
+                break
         return None
 
     def notify(self, method, params):
